@@ -1,7 +1,8 @@
 /-
   Proofs/Lemmas/EvalStep.lean — one location step: set-at-a-time evaluation with the walkers of
   the model (per context node only when there are predicates and several context nodes)
-  selects the same nodes as the per-context-node evaluation of the specification.
+  selects the same nodes as the per-context-node evaluation of the specification; with an unbound
+  prefix in the node test both fail, whatever the context node-set.
 -/
 import Proofs.Lemmas.EvalAsc
 
@@ -50,8 +51,9 @@ theorem step_node {n : Nat} (hn : n < a.size) :
   intro x hx
   exact Tree.axis_range h ax hn (List.mem_filter.mp hx).1
 
-/-- the step from a node-set: the cases of the model's shortcut -/
-theorem step_refines {s s' : List Nat} (hp : s.Perm s') (hok : Val.Ok a (.nodes s)) :
+/-- the step from a node-set when the prefix of the node test is bound (the resolution that
+    precedes the per-node loop has been reduced away): the cases of the model's shortcut -/
+theorem step_refines_bound {s s' : List Nat} (hp : s.Perm s') (hok : Val.Ok a (.nodes s)) :
     Res.Equiv
       (if (Model.sem.perNode || !preds.isNil && decide (s.length > 1)) = true then do
           let r ← concatMapE (fun n => do
@@ -165,6 +167,56 @@ theorem step_refines {s s' : List Nat} (hp : s.Perm s') (hok : Val.Ok a (.nodes 
             rw [List.append_nil]
             exact perm_cleanupFwd hnd
       | _ :: _ :: _, _, _, hlen => simp at hlen
+
+end
+
+section
+variable {a : Arena} (h : wfb a = true) {env : Env} {c c' : Ctx}
+  (ha : c.a = a) (ha' : c'.a = a) (he : c.env = env) (he' : c'.env = env)
+  (ax : Axis) (t : NodeTest) {preds : Exprs}
+  (hP : ∀ l, (∀ x ∈ l, x < a.size) →
+    ExRel Eq (applyPreds Model.sem preds c l) (applyPreds Spec.semKF preds c' l))
+include h ha ha' he he' hP
+
+/-- the step from a node-set, as `eval` writes it.  The prefix of the node test is resolved
+    before the per-node loop, so with an unbound prefix both evaluators fail, whatever the
+    context node-set; with a bound prefix `step_refines_bound` applies. -/
+theorem step_refines {s s' : List Nat} (hp : s.Perm s') (hok : Val.Ok a (.nodes s)) :
+    Res.Equiv
+      (if (Model.sem.perNode || !preds.isNil && decide (s.length > 1)) = true then do
+          let _ ← NodeTest.apply c.a c.env ax t []
+          let r ← concatMapE (fun n => do
+            let l ← NodeTest.apply c.a c.env ax t (Model.sem.axis c.a ax [n])
+            applyPreds Model.sem preds c l) s
+          pure (Val.nodes (cleanupFwd r))
+        else do
+          let l ← NodeTest.apply c.a c.env ax t (Model.sem.axis c.a ax s)
+          let r ← applyPreds Model.sem preds c l
+          pure (Val.nodes r))
+      (if (Spec.semKF.perNode || !preds.isNil && decide (s'.length > 1)) = true then do
+          let _ ← NodeTest.apply c'.a c'.env ax t []
+          let r ← concatMapE (fun n => do
+            let l ← NodeTest.apply c'.a c'.env ax t (Spec.semKF.axis c'.a ax [n])
+            applyPreds Spec.semKF preds c' l) s'
+          pure (Val.nodes (cleanupFwd r))
+        else do
+          let l ← NodeTest.apply c'.a c'.env ax t (Spec.semKF.axis c'.a ax s')
+          let r ← applyPreds Spec.semKF preds c' l
+          pure (Val.nodes r)) := by
+  cases hb : t.bound env
+  · -- unbound prefix: every branch of both evaluators resolves the node test first
+    have e1 : ∀ l, NodeTest.apply c.a c.env ax t l = .error .unboundPrefix := fun l => by
+      rw [ha, he]; exact NodeTest.apply_unbound a env ax hb l
+    have e2 : ∀ l, NodeTest.apply c'.a c'.env ax t l = .error .unboundPrefix := fun l => by
+      rw [ha', he']; exact NodeTest.apply_unbound a env ax hb l
+    simp only [e1, e2]
+    split <;> split <;> exact True.intro
+  · have e1 : NodeTest.apply c.a c.env ax t [] = .ok [] := by
+      rw [ha, he]; exact NodeTest.apply_nil_bound a env ax hb
+    have e2 : NodeTest.apply c'.a c'.env ax t [] = .ok [] := by
+      rw [ha', he']; exact NodeTest.apply_nil_bound a env ax hb
+    rw [e1, e2]
+    exact step_refines_bound h ha ha' he he' ax hb hP hp hok
 
 end
 end Xsel
